@@ -84,3 +84,71 @@ Theorem resolution_idempotent : forall f sc e e' sc',
   resolve_vars f sc e = RsOk (e', sc') -> resolve_vars f sc e' = RsOk (e', sc').
 Proof. exact resolve_vars_idem. Qed.
 Print Assumptions resolution_idempotent.
+
+(** * T-res for let / set / read-only operators nested to any depth (proofs/ResolveLet.v)
+    [fragE V e]: e is built from literals, variables of V, the read-only operators (arithmetic, comparison, logic,
+    bitwise, slice, if, do), (set (x e) ...) and (let ([x init] ...) body ...) with read-only initialisers, nested
+    arbitrarily.  [Inv V [start] st]: the global frame binds exactly the names of [start], no virtual signals, and no
+    name of V is an alias or a signal (the quantifier of the property).  For every such program the resolved program
+    and the program as written evaluate to the SAME outcome -- value or error, and final state -- for every fuel:
+    an assignment or a use any number of frames below its binding reaches the same binding, with or without shadowing.
+    Proved like the other whole-fragment theorems (a relation on computations carrying "the static scope stack
+    describes the dynamic frame chain", one rule per combinator, one congruence lemma per operator, induction on fuel). *)
+From WalModel.proofs Require ResolveLet.
+
+Theorem resolution_preserves_let_programs : forall V start e e' lf f st,
+  ResolveLet.fragE V e = true -> resolve start e = RsOk e' -> ResolveLet.Inv V [start] st ->
+  eval lf f e' st = eval lf f e st.
+Proof. exact ResolveLet.resolution_preserves. Qed.
+Print Assumptions resolution_preserves_let_programs.
+
+(** the same for any annotation that is correct w.r.t. a static scope stack, at any depth inside binders; the final
+    state satisfies the invariant again and the context is balanced *)
+Theorem correctly_annotated_programs_agree : forall V lf f sc e' e, ResolveLet.ann V sc e' e ->
+  forall st, ResolveLet.Inv V sc st ->
+    eval lf f e' st = eval lf f e st /\
+    forall a st', eval lf f e st = Ok a st' -> ResolveLet.Inv V sc st' /\ Balanced.R st st'.
+Proof. intros V lf f sc e' e H. exact (ResolveLet.resolved_agrees V lf f sc e' e H). Qed.
+Print Assumptions correctly_annotated_programs_agree.
+
+Theorem the_pass_annotates_correctly : forall V start e e',
+  ResolveLet.fragE V e = true -> resolve start e = RsOk e' -> ResolveLet.ann V [start] e' e.
+Proof. exact ResolveLet.resolve_annotates. Qed.
+Print Assumptions the_pass_annotates_correctly.
+
+Theorem the_invariant_is : forall V sc st, ResolveLet.Inv V sc st <->
+  (ReadOnly.novirt st /\
+   (forall j scj, nth_error sc j = Some scj ->
+      exists fj f, hop st (st_cur st) j = Some fj /\ get_frame st fj = Some f /\ forall x, amem x (f_binds f) = smem x scj) /\
+   (List.length sc <= List.length (st_frames st))%nat /\
+   forall n, smem n V = true -> alookup n (st_aliases st) = None /\ cont_contains (st_cont st) n = Some false).
+Proof. intros. reflexivity. Qed.
+Print Assumptions the_invariant_is.
+
+Theorem the_let_fragment_is : forall V e, ResolveLet.fragE V e =
+  match e with
+  | VInt _ | VBool _ | VStr _ | VFloat _ => true
+  | VSym n None => smem n V
+  | VList true (VOp OLet :: VList true bs :: body) =>
+      forallb (fun b => match b with VList true [VSym _ _; init] => ReadOnly.is_ro init | _ => false end) bs &&
+      forallb (ResolveLet.fragE V) body
+  | VList true (VOp OSet :: bs) =>
+      forallb (fun b => match b with VList true [VSym kn None; e] => smem kn V && ResolveLet.fragE V e | _ => false end) bs
+  | VList true (VOp o :: args) => ReadOnly.ro_op o && forallb (ResolveLet.fragE V) args
+  | _ => false
+  end.
+Proof. intros V e. destruct e as [| | | | |n s| |w l| | | | |]; try reflexivity. Qed.
+Print Assumptions the_let_fragment_is.
+
+(** met by: global g; (let ([x 1]) (let ([y 2]) (let ([x 10]) (set (g (+ g x y)))) (set (x (+ x y)))) (+ x g)) --
+    an assignment three frames below its binding past a shadowing x, one two frames below *)
+Example a_nested_program : ResolveLet.fragE ResolveLet.demo_V ResolveLet.demo_prog = true /\
+  ResolveLet.Inv ResolveLet.demo_V [["g"]] ResolveLet.demo_state /\
+  (exists e', resolve ["g"] ResolveLet.demo_prog = RsOk e' /\ e' <> ResolveLet.demo_prog) /\
+  (forall e' lf f, resolve ["g"] ResolveLet.demo_prog = RsOk e' ->
+     eval lf f e' ResolveLet.demo_state = eval lf f ResolveLet.demo_prog ResolveLet.demo_state) /\
+  exists st', eval 20 20 ResolveLet.demo_prog ResolveLet.demo_state = Ok (VInt 20) st'.
+Proof.
+  split; [exact ResolveLet.demo_in_fragment|]. split; [exact ResolveLet.demo_inv|]. split; [exact ResolveLet.demo_resolved|].
+  split; [exact ResolveLet.demo_agrees|exact ResolveLet.demo_value].
+Qed.
